@@ -53,6 +53,12 @@ def execute_case(steps, probe_seed):
                     else:
                         act.apply(st)
             except Exception as e:
+                import traceback
+
+                tb = traceback.extract_tb(e.__traceback__)
+                if not any("/rockit/" in fr.filename or "casadi" in fr.filename for fr in tb):
+                    # raised by the harness itself (bad op, unknown name): never to be booked as a rejection by rockit
+                    return {"outcome": "generator-error", "detail": "harness: %s at step %d (%s): %s" % (type(e).__name__, i, k, str(e)[:200])}
                 if not fault_seen:
                     return {"outcome": "generator-error", "detail": "%s at step %d (%s): %s" % (type(e).__name__, i, k, str(e)[:200])}
                 if rejected_at is None:
@@ -187,6 +193,12 @@ def catalogue(ops, sp, cls):
             e = ["+", ["i", x, 0], ["s", "?f"]]
             out.append(("foreign_in_ode", pos, "add", {"op": "set_der", "state": x, "expr": e if rows == 1 else ["vec"] + [e] * rows}))
     out.append(("nonscalar_objective", "-", "add", {"op": "add_objective", "expr": ["at_tf", ["vec", ["i", x0, 0], ["i", xl, 0]]]}))
+    # unknown grid names with expressions that are no signals (boundary value, integral, global variable)
+    out.append(("unknown_grid_subject_to", "boundary", "add", {"op": "subject_to", "expr": ["<=", ["at_tf", ["i", xl, 0]], ["c", 50.0]], "grid": "contrl"}))
+    out.append(("unknown_grid_subject_to", "integral", "add", {"op": "subject_to", "expr": ["<=", ["int", ["sq", ["i", x0, 0]]], ["c", 500.0]], "grid": "Control"}))
+    for i, v in enumerate(gvars):
+        if sp.sym(v).get("grid", "") == "":
+            out.append(("unknown_grid_subject_to", "var#%d" % (i + 1), "add", {"op": "subject_to", "expr": ["<=", ["s", v], ["c", 50.0]], "grid": "points"}))
     for i, v in enumerate(gvars):
         out.append(("set_value_on_variable", "var#%d" % (i + 1), "add", {"op": "set_value", "p": v, "v": 1.0}))
     out.append(("set_value_unknown", "-", "add", {"op": "set_value", "p": "?q", "v": 1.0}))
@@ -231,11 +243,11 @@ def cases_for(ops, sp, cls, r):
             if how == "omit":
                 steps = [op for j, op in enumerate(ops) if j != payload]
                 # the specification is ill-posed from the start: the first trigger must raise
-                steps = steps[:0] + [{"op": "omission", "fault": True, "kind": kind}] + steps + jcopy(trig)
+                steps = steps[:0] + [{"op": "omission", "fault": True, "fault_kind": kind}] + steps + jcopy(trig)
                 cases.append(((kind, pos, cls, "from-start", trig_name), steps))
                 continue
             adds = [payload] if how == "add" else payload
-            adds = [dict(F(a), kind=kind) for a in adds]
+            adds = [dict(F(a), fault_kind=kind) for a in adds]
             # timing 1: last declaration before the first transcription
             cases.append(((kind, pos, cls, "before-first-solve", trig_name), ops + adds + jcopy(trig)))
             # timing 2: after a successful solve
@@ -246,7 +258,7 @@ def cases_for(ops, sp, cls, r):
     # an ill-posed *query*: unknown grid name in sample (the specification itself stays well-posed)
     for timing, pre in (("before-first-solve", []), ("after-solve", [{"op": "trigger", "what": "solve"}])):
         cases.append((("unknown_grid_sample", "-", cls, timing, "sample"),
-                      ops + pre + [{"op": "trigger", "what": "sample", "grid": "nogrid", "fault": True, "kind": "unknown_grid_sample"}]))
+                      ops + pre + [{"op": "trigger", "what": "sample", "grid": "nogrid", "fault": True, "fault_kind": "unknown_grid_sample"}]))
     return cases
 
 
@@ -332,7 +344,7 @@ def run_steps(steps, probe_seed):
     """replay one case"""
     result = {"prop": "C20", "probe_seed": probe_seed, "verdict": "ok", "steps": steps, "nsteps": len(steps)}
     fault = [s for s in steps if s.get("fault")]
-    kind = fault[0].get("kind") if fault and fault[0]["op"] == "omission" else None
+    kind = fault[0].get("fault_kind") if fault and fault[0]["op"] == "omission" else None
     try:
         out = execute_case(steps, probe_seed)
         result["outcome"] = out
@@ -347,4 +359,4 @@ def run_steps(steps, probe_seed):
 def classify(steps):
     """fault kind of an additive case, recomputed from its faulty ops (replay files carry no key)"""
     f = [s for s in steps if s.get("fault")]
-    return f[0].get("kind", f[0]["op"]) if f else "?"
+    return f[0].get("fault_kind", f[0]["op"]) if f else "?"
